@@ -333,15 +333,22 @@ def finish(prop, tier, seed, total, meta, t0, legs):
         print("  signature=%s occurrences=%d\n  observed: %s" % (sig, n, detail[:600]))
         print("VIOLATION property=%s replay=%s" % (prop, path), flush=True)
         code = max(code, 1)
+    legs_txt = dict(total.evals) if len(total.evals) <= 8 else "%d legs/harnesses" % len(total.evals)
+    cls_txt = ({k: len(v) for k, v in total.classes.items()} if len(total.classes) <= 8
+               else "%d distinct" % sum(len(v) for v in total.classes.values()))
+    extra = ""
+    if "states" in coverage:
+        extra = " states=%d transitions=%d" % (coverage["states"], coverage["transitions"])
     print(
-        "%s tier=%s evaluations=%d distinct_nontrivial=%d legs=%s outcome-classes=%s wall=%.1fs -> %s"
+        "%s tier=%s evaluations=%d distinct_nontrivial=%d%s legs=%s outcome-classes=%s wall=%.1fs -> %s"
         % (
             prop,
             tier,
             evaluations,
             nontrivial,
-            dict(total.evals),
-            {k: len(v) for k, v in total.classes.items()},
+            extra,
+            legs_txt,
+            cls_txt,
             wall,
             {0: "HOLDS on everything explored", 1: "VIOLATED", 2: "HARNESS ERROR"}[code],
         ),
